@@ -309,12 +309,14 @@ func newVerEnv() *verEnv {
 }
 
 // verInst is ONE verifier (with its own instance of the document) and its instrumented trust store.
+type fullVerifier interface {
+	Verify(ctx context.Context, desc ocispec.Descriptor, signature []byte, opts notation.VerifierVerifyOptions) (*notation.VerificationOutcome, error)
+	VerifyBlob(ctx context.Context, descGenFunc notation.BlobDescriptorGenerator, signature []byte, opts notation.BlobVerifierVerifyOptions) (*notation.VerificationOutcome, error)
+	SkipVerify(ctx context.Context, opts notation.VerifierVerifyOptions) (bool, *trustpolicy.VerificationLevel, error)
+}
+
 type verInst struct {
-	v     notation.Verifier
-	bv    notation.BlobVerifier
-	sk    interface {
-		SkipVerify(ctx context.Context, opts notation.VerifierVerifyOptions) (bool, *trustpolicy.VerificationLevel, error)
-	}
+	v     fullVerifier
 	store *MockStore
 	blob  bool
 }
@@ -331,13 +333,7 @@ func (e *verEnv) newVerifier(blob bool, d []stmtD, rep bool) *verInst {
 	if err != nil {
 		panic(fmt.Sprintf("c08: verifier construction on an accepted document: %v", err))
 	}
-	vi := &verInst{store: store, blob: blob}
-	vi.v, _ = v.(notation.Verifier)
-	vi.bv, _ = v.(notation.BlobVerifier)
-	vi.sk, _ = v.(interface {
-		SkipVerify(ctx context.Context, opts notation.VerifierVerifyOptions) (bool, *trustpolicy.VerificationLevel, error)
-	})
-	return vi
+	return &verInst{v: v, store: store, blob: blob}
 }
 
 // observe builds a fresh verifier and observes one query on it.
@@ -358,10 +354,10 @@ func (e *verEnv) observeOn(vi *verInst, q queryD) (int, string, string) {
 		if q.Kind == "global" {
 			name = ""
 		}
-		outcome, err = vi.bv.VerifyBlob(ctx, func(digest.Algorithm) (ocispec.Descriptor, error) { return e.desc, nil }, e.env,
+		outcome, err = vi.v.VerifyBlob(ctx, func(digest.Algorithm) (ocispec.Descriptor, error) { return e.desc, nil }, e.env,
 			notation.BlobVerifierVerifyOptions{SignatureMediaType: MtJWS, TrustPolicyName: name})
 	} else {
-		skip, _, serr := vi.sk.SkipVerify(ctx, notation.VerifierVerifyOptions{ArtifactReference: q.Arg})
+		skip, _, serr := vi.v.SkipVerify(ctx, notation.VerifierVerifyOptions{ArtifactReference: q.Arg})
 		switch {
 		case serr != nil && ErrClass(serr) == "nopolicy":
 			sv = 0
@@ -527,7 +523,7 @@ func runC08(a *Args) error {
 	rng := NewRng(a.Seed)
 	prelude := "From NV Require Import Base C08_Model.\nOpen Scope string_scope.\n"
 	w := NewCaseWriter(a, "C08", prelude, "case", "run")
-	w.Rule = "OCI: documents of 1-4 statements over a scope alphabet of nested / sibling / port-qualified / case-variant / near-identical repository paths (with and without a wildcard statement, plus documents violating one validity rule), every permutation of the statements, references = every listed scope, prefix / extension / sibling / case / port variants of listed scopes, unlisted scopes, tag-only, tag+digest, several '@', malformed; blob: documents over a name alphabet (case / blank-padded / prefix variants), every permutation, queries by listed / near-miss / blank (ASCII and Unicode white space) names and for the global statement; fuzzed registry/repository strings against a wildcard-only document. After the first selection the driver writes through the statement it received (all slices, override map, scalar fields, appends) and selects again; for accepted documents a third of the cases also run SkipVerify / Verify / VerifyBlob with a genuine envelope. non-trivial = the query is not refused as malformed and (the document has >= 2 statements or the result was written through); distinct = distinct (document order, queries, writes) tuples"
+	w.Rule = "OCI: documents of 1-4 statements over a scope alphabet of nested / sibling / port-qualified / case-variant / near-identical repository paths (with and without a wildcard statement, plus documents violating one validity rule), every permutation of the statements, references = every listed scope, prefix / extension / sibling / case / port variants of listed scopes, unlisted scopes, tag-only, tag+digest, several '@', malformed; blob: documents over a name alphabet (case / blank-padded / prefix variants), every permutation, queries by listed / near-miss / blank (ASCII and Unicode white space) names and for the global statement; fuzzed registry/repository strings against a wildcard-only document. After the first selection the driver writes through the statement it received (all slices, override map, scalar fields, appends) and selects again; for accepted documents a third of the cases also run SkipVerify / Verify / VerifyBlob with a genuine envelope. non-trivial = the query is not refused as malformed and (the document has >= 2 statements or the result was written through); distinct = distinct (document order, queries, writes) tuples; ADDED: empty slices / maps of the document as nil or as empty non-nil objects (a third of all cases + a fixed family); the matching scope at every position of a 3-4 scope statement x every permutation of the document; rarely used legal registry / repository / digest syntax; HISTORIES: one long-lived document object and one long-lived verifier answering 5-8 calls in sequence whose expected answers differ (same registry / other repository, wildcard, other registry, refused, back), each step emitted as its own case judged on its own input"
 	w.Assumptions = []string{
 		"error classes of the selection functions are recognised from stable tokens of their messages",
 		"the statement the verifier used is recognised from the first trust store of type ca it asks the injected trust store for (x509 signing scheme, genuine JWS envelope); statements are given distinct first ca stores",
@@ -538,15 +534,108 @@ func runC08(a *Args) error {
 	var ve *verEnv
 	var id int64
 
+	// one document object (and its pristine twin) with its selection function
+	type instance struct {
+		docObj, pristine any
+		accepted         bool
+		sel              func(q queryD) (*handle, error)
+	}
+	newInstance := func(blob bool, d []stmtD, rep bool) *instance {
+		in := &instance{}
+		if blob {
+			doc := buildBlob(d, rep)
+			in.docObj, in.pristine = doc, buildBlob(d, rep)
+			in.accepted = doc.Validate() == nil
+			in.sel = func(q queryD) (*handle, error) {
+				var p *trustpolicy.BlobTrustPolicy
+				var err error
+				if q.Kind == "global" {
+					p, err = doc.GetGlobalTrustPolicy()
+				} else {
+					p, err = doc.GetApplicableTrustPolicy(q.Arg)
+				}
+				if err != nil {
+					return nil, err
+				}
+				return &handle{name: &p.Name, sv: &p.SignatureVerification, global: &p.GlobalPolicy, stores: &p.TrustStores, ids: &p.TrustedIdentities}, nil
+			}
+		} else {
+			doc := buildOCI(d, rep)
+			in.docObj, in.pristine = doc, buildOCI(d, rep)
+			in.accepted = doc.Validate() == nil
+			in.sel = func(q queryD) (*handle, error) {
+				p, err := doc.GetApplicableTrustPolicy(q.Arg)
+				if err != nil {
+					return nil, err
+				}
+				return &handle{name: &p.Name, sv: &p.SignatureVerification, scopes: &p.RegistryScopes, stores: &p.TrustStores, ids: &p.TrustedIdentities}, nil
+			}
+		}
+		return in
+	}
+	// one call: select, look at the result, then write through it
+	type callRec struct {
+		term, desc string
+		code       int // 0 = a statement, else the error class
+	}
+	call := func(in *instance, q queryD, script []wrD) callRec {
+		h, err := in.sel(q)
+		if err != nil {
+			k := errCode(err)
+			return callRec{CApp("RErr", CN(int64(k))), fmt.Sprintf("error %d: %s", k, Short(err.Error(), 90)), k}
+		}
+		v := h.view()
+		rec := callRec{CApp("RSel", stmtTerm(v)), "statement " + fmt.Sprintf("%q scopes=%q level=%s override=%v stores=%q ids=%q global=%v", v.Name, v.Scopes, v.Level, v.Override, v.Stores, v.Ids, v.Global), 0}
+		for _, x := range script {
+			h.apply(x)
+		}
+		return rec
+	}
+	scriptOf := func(c *caseD) []wrD {
+		if c.WAll != "" {
+			return wall(c.WAll)
+		}
+		return c.WS
+	}
+	emit := func(my int64, c *caseD, r1, r2 callRec, sv int, vt, vd string) {
+		script := scriptOf(c)
+		c.R1, c.R2 = r1.desc, r2.desc
+		c.SV, c.VerObs = sv, vd
+		var wsTerm string
+		if c.WAll != "" {
+			wsTerm = CApp("wall", CStr(c.WAll))
+		} else {
+			items := make([]string, len(c.WS))
+			for i, x := range c.WS {
+				items[i] = wrTerm(x)
+			}
+			wsTerm = CList(items)
+		}
+		in := CApp("mk_input", docTerm(c.Doc), CBool(c.Accepted), queryTerm(c.Q1), wsTerm, queryTerm(c.Q2), CBool(c.Ver), CBool(c.Rep))
+		obs := CApp("mk_obs", r1.term, r2.term, CBool(c.Same), CN(int64(sv)), vt)
+		term := CApp("mk_case", CN(my), in, obs)
+		refused := r1.code == 1 || r1.code == 2 || r1.code == 4
+		nontriv := !refused && (len(c.Doc) >= 2 || (r1.code == 0 && len(script) > 0))
+		key := fmt.Sprintf("%v|%s|%v|%v|%v|%v|%v|%v|%s", c.Blob, docTerm(c.Doc), c.Q1, c.WAll, c.WS, c.Q2, c.Ver, c.Rep, c.Hist)
+		w.Add(my, term, c, key, nontriv)
+		w.Count("family", c.Family)
+		w.Count("statements", fmt.Sprint(len(c.Doc)))
+		w.Count("accepted", fmt.Sprint(c.Accepted))
+		w.Count("empty_values", map[bool]string{false: "nil", true: "non-nil"}[c.Rep])
+		if r1.code != 0 {
+			w.Count("first_result", fmt.Sprintf("error %d", r1.code))
+		} else {
+			w.Count("first_result", "statement")
+		}
+		w.Count("writes", fmt.Sprint(len(script)))
+		w.Count("verifier", strings.SplitN(vd, ":", 2)[0])
+	}
+
 	runCase := func(c *caseD) {
 		my := id
 		id++
 		if !w.Want(my) {
 			return
-		}
-		script := c.WS
-		if c.WAll != "" {
-			script = wall(c.WAll)
 		}
 		var panicked any
 		func() {
@@ -555,95 +644,96 @@ func runC08(a *Args) error {
 					panicked = r
 				}
 			}()
-			var sel func(q queryD) (*handle, error)
-			var docObj, pristine any
-			if c.Blob {
-				doc := buildBlob(c.Doc)
-				docObj, pristine = doc, buildBlob(c.Doc)
-				c.Accepted = doc.Validate() == nil
-				sel = func(q queryD) (*handle, error) {
-					var p *trustpolicy.BlobTrustPolicy
-					var err error
-					if q.Kind == "global" {
-						p, err = doc.GetGlobalTrustPolicy()
-					} else {
-						p, err = doc.GetApplicableTrustPolicy(q.Arg)
-					}
-					if err != nil {
-						return nil, err
-					}
-					return &handle{name: &p.Name, sv: &p.SignatureVerification, global: &p.GlobalPolicy, stores: &p.TrustStores, ids: &p.TrustedIdentities}, nil
-				}
-			} else {
-				doc := buildOCI(c.Doc)
-				docObj, pristine = doc, buildOCI(c.Doc)
-				c.Accepted = doc.Validate() == nil
-				sel = func(q queryD) (*handle, error) {
-					p, err := doc.GetApplicableTrustPolicy(q.Arg)
-					if err != nil {
-						return nil, err
-					}
-					return &handle{name: &p.Name, sv: &p.SignatureVerification, scopes: &p.RegistryScopes, stores: &p.TrustStores, ids: &p.TrustedIdentities}, nil
-				}
-			}
-			res := func(h *handle, err error) (string, string) {
-				if err != nil {
-					k := errCode(err)
-					return CApp("RErr", CN(int64(k))), fmt.Sprintf("error %d: %s", k, Short(err.Error(), 90))
-				}
-				v := h.view()
-				return CApp("RSel", stmtTerm(v)), "statement " + fmt.Sprintf("%q scopes=%q level=%s override=%v stores=%q ids=%q global=%v", v.Name, v.Scopes, v.Level, v.Override, v.Stores, v.Ids, v.Global)
-			}
-			h1, err1 := sel(c.Q1)
-			t1, d1 := res(h1, err1)
-			if err1 == nil {
-				for _, x := range script {
-					h1.apply(x)
-				}
-			}
-			h2, err2 := sel(c.Q2)
-			t2, d2 := res(h2, err2)
-			c.R1, c.R2 = d1, d2
-			c.Same = reflect.DeepEqual(docObj, pristine)
+			in := newInstance(c.Blob, c.Doc, c.Rep)
+			c.Accepted = in.accepted
+			r1 := call(in, c.Q1, scriptOf(c))
+			r2 := call(in, c.Q2, nil)
+			c.Same = reflect.DeepEqual(in.docObj, in.pristine)
 			c.Ver = c.Ver && c.Accepted
 			sv, vt, vd := 9, "VNA", "not observed"
 			if c.Ver {
 				if ve == nil {
 					ve = newVerEnv()
 				}
-				sv, vt, vd = ve.observe(c.Blob, c.Doc, c.Q1)
+				sv, vt, vd = ve.observe(c.Blob, c.Doc, c.Rep, c.Q1)
 			}
-			c.SV, c.VerObs = sv, vd
-			var wsTerm string
-			if c.WAll != "" {
-				wsTerm = CApp("wall", CStr(c.WAll))
-			} else {
-				items := make([]string, len(c.WS))
-				for i, x := range c.WS {
-					items[i] = wrTerm(x)
-				}
-				wsTerm = CList(items)
-			}
-			in := CApp("mk_input", docTerm(c.Doc), CBool(c.Accepted), queryTerm(c.Q1), wsTerm, queryTerm(c.Q2), CBool(c.Ver))
-			obs := CApp("mk_obs", t1, t2, CBool(c.Same), CN(int64(sv)), vt)
-			term := CApp("mk_case", CN(my), in, obs)
-			refused := err1 != nil && (errCode(err1) == 1 || errCode(err1) == 2 || errCode(err1) == 4)
-			nontriv := !refused && (len(c.Doc) >= 2 || (err1 == nil && len(script) > 0))
-			key := fmt.Sprintf("%v|%s|%v|%v|%v|%v|%v", c.Blob, docTerm(c.Doc), c.Q1, c.WAll, c.WS, c.Q2, c.Ver)
-			w.Add(my, term, c, key, nontriv)
-			w.Count("family", c.Family)
-			w.Count("statements", fmt.Sprint(len(c.Doc)))
-			w.Count("accepted", fmt.Sprint(c.Accepted))
-			if err1 != nil {
-				w.Count("first_result", fmt.Sprintf("error %d", errCode(err1)))
-			} else {
-				w.Count("first_result", "statement")
-			}
-			w.Count("writes", fmt.Sprint(len(script)))
-			w.Count("verifier", strings.SplitN(vd, ":", 2)[0])
+			emit(my, c, r1, r2, sv, vt, vd)
 		}()
 		if panicked != nil {
 			w.ImplViolation(my, fmt.Sprintf("panic during selection: %v", panicked), c, "panic")
+		}
+	}
+
+	// runHistory: ONE document object and ONE verifier live through the calls qs[0], qs[1], ...;
+	// after call k the caller writes scripts[k] through what it received. Step k is emitted as
+	// its own case (first selection = call k, later selection = call k+1, verifier level = the
+	// k-th use of the long-lived verifier) and judged on its own input: the model knows nothing
+	// of earlier calls, so anything remembered across calls shows up as a disagreement.
+	runHistory := func(fam string, blob bool, d []stmtD, rep bool, qs []queryD, scripts [][]wrD, ver bool) {
+		n := len(qs) - 1
+		if n < 1 {
+			return
+		}
+		first := id
+		id += int64(n)
+		wanted := false
+		for k := 0; k < n; k++ {
+			wanted = wanted || w.Want(first+int64(k))
+		}
+		if !wanted {
+			return
+		}
+		var panicked any
+		func() {
+			defer func() {
+				if r := recover(); r != nil {
+					panicked = r
+				}
+			}()
+			in := newInstance(blob, d, rep)
+			var vi *verInst
+			if ver && in.accepted {
+				if ve == nil {
+					ve = newVerEnv()
+				}
+				vi = ve.newVerifier(blob, d, rep)
+			}
+			recs := make([]callRec, n+1)
+			same := make([]bool, n+1)
+			type vo struct {
+				sv     int
+				vt, vd string
+			}
+			vobs := make([]vo, n+1)
+			for k := 0; k <= n; k++ {
+				var sc []wrD
+				if k < len(scripts) {
+					sc = scripts[k]
+				}
+				recs[k] = call(in, qs[k], sc)
+				same[k] = reflect.DeepEqual(in.docObj, in.pristine)
+				vobs[k] = vo{9, "VNA", "not observed"}
+				if vi != nil && k < n {
+					sv, vt, vd := ve.observeOn(vi, qs[k])
+					vobs[k] = vo{sv, vt, vd}
+				}
+			}
+			for k := 0; k < n; k++ {
+				my := first + int64(k)
+				if !w.Want(my) {
+					continue
+				}
+				c := &caseD{Family: fam, Blob: blob, Doc: d, Q1: qs[k], Q2: qs[k+1], Ver: vi != nil, Rep: rep,
+					Hist: fmt.Sprintf("step %d of %d on one document object and one verifier; calls so far: %v", k+1, n, qs[:k+2]),
+					Accepted: in.accepted, Same: same[k+1]}
+				if k < len(scripts) {
+					c.WS = scripts[k]
+				}
+				emit(my, c, recs[k], recs[k+1], vobs[k].sv, vobs[k].vt, vobs[k].vd)
+			}
+		}()
+		if panicked != nil {
+			w.ImplViolation(first, fmt.Sprintf("panic during a history of selections: %v", panicked), &caseD{Family: fam, Blob: blob, Doc: d, Rep: rep}, "panic")
 		}
 	}
 
@@ -792,7 +882,7 @@ func runC08(a *Args) error {
 		for _, p := range permutations(len(b.d)) {
 			d := permute(b.d, p)
 			for _, ref := range b.refs {
-				c := &caseD{Family: b.fam, Doc: d, Q1: queryD{"oci", ref}, Q2: queryD{"oci", ref}, Ver: r.Chance(1, 3)}
+				c := &caseD{Family: b.fam, Doc: d, Q1: queryD{"oci", ref}, Q2: queryD{"oci", ref}, Ver: r.Chance(1, 3), Rep: r.Chance(1, 3)}
 				pickScript(r, c)
 				if r.Chance(1, 5) {
 					c.Q2 = queryD{"oci", Pick(r, b.refs)}
@@ -892,7 +982,7 @@ func runC08(a *Args) error {
 		for _, p := range permutations(len(d0)) {
 			d := permute(d0, p)
 			for _, q := range qs {
-				c := &caseD{Family: fam, Blob: true, Doc: d, Q1: q, Q2: q, Ver: r.Chance(1, 3)}
+				c := &caseD{Family: fam, Blob: true, Doc: d, Q1: q, Q2: q, Ver: r.Chance(1, 3), Rep: r.Chance(1, 3)}
 				pickScript(r, c)
 				if r.Chance(1, 4) {
 					c.Q2 = Pick(r, qs)
@@ -951,6 +1041,178 @@ func runC08(a *Args) error {
 			}
 			q := queryD{"oci", ref}
 			runCase(&caseD{Family: "fuzz", Doc: wildOnly, Q1: q, Q2: q})
+		}
+	}
+	// ---- family 4: empty values of the document that are nil / empty but non-nil ----
+	{
+		d := []stmtD{{Name: "p0", Scopes: []string{"reg.io/a/b"}, Level: "strict", Stores: []string{"ca:k0"}, Ids: []string{"*"}},
+			{Name: "p1", Scopes: []string{"*"}, Level: "skip"}}
+		bd := []stmtD{{Name: "g", Level: "strict", Stores: []string{"ca:k0"}, Ids: []string{"*"}, Global: true}, {Name: "s", Level: "skip"}}
+		scripts := [][]wrD{nil, {{Op: "mapset", K: "revocation", V: "skip"}}, {{Op: "append", F: "FStores", V: "ca:evil"}, {Op: "append", F: "FIds", V: "*"}},
+			{{Op: "mapset", K: "x", V: "y"}, {Op: "mapdel", K: "x"}}}
+		for _, rep := range []bool{false, true} {
+			for _, ref := range []string{"reg.io/a/b@" + dig1, "reg.io/x@" + dig1} {
+				q := queryD{"oci", ref}
+				runCase(&caseD{Family: "empty-values", Doc: d, Q1: q, Q2: q, WAll: "x", Rep: rep, Ver: true})
+				for _, sc := range scripts[1:] {
+					runCase(&caseD{Family: "empty-values", Doc: d, Q1: q, Q2: q, WS: sc, Rep: rep, Ver: true})
+				}
+			}
+			for _, q := range []queryD{{"global", ""}, {"name", "g"}, {"name", "s"}} {
+				runCase(&caseD{Family: "empty-values", Blob: true, Doc: bd, Q1: q, Q2: q, WAll: "x", Rep: rep, Ver: true})
+				for _, sc := range scripts[1:] {
+					runCase(&caseD{Family: "empty-values", Blob: true, Doc: bd, Q1: q, Q2: q, WS: sc, Rep: rep})
+				}
+			}
+		}
+	}
+
+	// ---- family 5: the matching scope at every position of its statement, the matching
+	// statement at every position of the document (wildcard and foreign statements before / after) ----
+	{
+		r := rng.Fork(40000)
+		groups := [][]string{{"reg.io/a/b", "reg.io/a/b/c", "reg.io/a", "reg.io/a/bc"}, {"reg.io:80/a/b", "REG.io/a/b", "reg.io.evil/a/b"}}
+		for v, scopes := range groups {
+			for rot := 0; rot < len(scopes); rot++ {
+				sc := append(append([]string(nil), scopes[rot:]...), scopes[:rot]...)
+				d := []stmtD{{Name: "p0", Scopes: sc}, {Name: "p1", Scopes: []string{"g.io/a/b"}}, {Name: "p2", Scopes: []string{"*"}}}
+				for k := range d {
+					content(r, k, &d[k])
+				}
+				for pi, p := range permutations(3) {
+					dd := permute(d, p)
+					for _, x := range append(append([]string(nil), sc...), sc[len(sc)-1]+"/x", "g.io/a/b") {
+						q := queryD{"oci", x + "@" + dig1}
+						c := &caseD{Family: "position", Doc: dd, Q1: q, Q2: q, Rep: (rot+pi)%2 == 1, Ver: v == 0 && pi%3 == 0}
+						if pi%2 == 0 {
+							c.WAll = "x"
+						}
+						runCase(c)
+					}
+				}
+			}
+		}
+	}
+
+	// ---- family 6: rarely used legal syntax of registry / repository / reference ----
+	{
+		rare := []string{"10.0.0.1:5000/a/b", "localhost/a", "r/a", "0/0", "REG.IO/a/b", "reg-1.io/a", "xn--bcher-kva.io/a", "reg.io/a__b", "reg.io/a--b",
+			"reg.io/a---b", "reg.io/a.b_c-d/e", "reg.io:0/a", "reg.io/a/b/c/d/e/f/g/h", "a.b.c.d.e/f", "reg.io/0", "A/a", "reg.io:65536/a", "a-b.c-d:1/e.f/g_h/i-j"}
+		r := rng.Fork(41000)
+		for k, sc := range rare {
+			d := []stmtD{{Name: "p0", Scopes: []string{sc}}}
+			if k%2 == 0 {
+				d = append(d, stmtD{Name: "p1", Scopes: []string{"*"}})
+			}
+			for j := range d {
+				content(r, j, &d[j])
+			}
+			if k%4 >= 2 {
+				d = permute(d, permutations(len(d))[len(d)-1])
+			}
+			flip := strings.ToUpper(sc)
+			if flip == sc {
+				flip = strings.ToLower(sc)
+			}
+			for _, ref := range []string{sc + "@" + dig1, sc + "@", sc + "@sha512:a/b:c", sc + "@x@" + dig1, flip + "@" + dig1, sc + "/@" + dig1, sc + ":1@" + dig1, sc} {
+				q := queryD{"oci", ref}
+				runCase(&caseD{Family: "rare-syntax", Doc: d, Q1: q, Q2: q, Rep: k%3 == 0, Ver: ref == sc+"@"+dig1})
+			}
+		}
+	}
+
+	// ---- family 7: histories — one long-lived document object and one long-lived verifier ----
+	{
+		pickScriptH := func(r *Rng, blob bool) []wrD {
+			switch k := r.Intn(10); {
+			case k < 4:
+				return wall("x")
+			case k < 7:
+				return randomWrites(r, blob)
+			}
+			return nil
+		}
+		// a fixed one: same registry, different repositories, wildcard, other registry, refused, and back
+		{
+			d := []stmtD{{Name: "p0", Scopes: []string{"reg.io/a/b"}, Level: "strict", Stores: []string{"ca:k0"}, Ids: []string{"*"}},
+				{Name: "p1", Scopes: []string{"reg.io/a/b/c", "reg.io/a"}, Level: "permissive", Override: map[string]string{"revocation": "log"}, Stores: []string{"ca:k1"}, Ids: []string{"*"}},
+				{Name: "p2", Scopes: []string{"g.io/a/b"}, Level: "skip"},
+				{Name: "p3", Scopes: []string{"*"}, Level: "audit", Stores: []string{"ca:k3"}, Ids: []string{"*"}}}
+			var qs []queryD
+			for _, x := range []string{"reg.io/a/b@" + dig1, "reg.io/a/b/c@" + dig1, "reg.io/zzz@" + dig1, "g.io/a/b@" + dig1, "reg.io/a/b@" + dig2, "reg.io/a/b:v1", "reg.io/a@" + dig1, "g.io/x@" + dig1, "reg.io/a/b@" + dig1} {
+				qs = append(qs, queryD{"oci", x})
+			}
+			for pi, p := range permutations(4) {
+				if pi%4 != 0 && !thorough {
+					continue
+				}
+				scripts := make([][]wrD, len(qs))
+				for k := range scripts {
+					if (k+pi)%2 == 0 {
+						scripts[k] = wall("x")
+					}
+				}
+				runHistory("history-oci", false, permute(d, p), pi%8 == 4, qs, scripts, true)
+			}
+			d3 := d[:3] // no wildcard: unlisted repositories are refused in between
+			runHistory("history-oci", false, d3, false, qs, nil, true)
+			bd := []stmtD{{Name: "a", Level: "strict", Stores: []string{"ca:k0"}, Ids: []string{"*"}},
+				{Name: "A", Level: "audit", Stores: []string{"ca:k1"}, Ids: []string{"*"}, Global: true},
+				{Name: "ab", Level: "skip"}}
+			var bq []queryD
+			for _, x := range []string{"a", "A", "ab", "b", "a ", "", "a", " "} {
+				bq = append(bq, queryD{"name", x})
+			}
+			bq = append(bq, queryD{"global", ""}, queryD{"name", "A"}, queryD{"name", "a"})
+			for pi, p := range permutations(3) {
+				scripts := make([][]wrD, len(bq))
+				for k := range scripts {
+					if (k+pi)%2 == 0 {
+						scripts[k] = wall("x")
+					}
+				}
+				runHistory("history-blob", true, permute(bd, p), pi%2 == 1, bq, scripts, true)
+			}
+			runHistory("history-blob", true, bd[:1], false, bq, nil, true) // no global statement
+		}
+		nh := 16
+		if thorough {
+			nh = 200
+		}
+		for k := 0; k < nh; k++ {
+			r := rng.Fork(uint64(50000 + k))
+			b := mkOCIDoc(r, 2+k%3, k%2 == 0, 0)
+			ps := permutations(len(b.d))
+			d := permute(b.d, ps[r.Intn(len(ps))])
+			var qs []queryD
+			var scripts [][]wrD
+			last := ""
+			for len(qs) < 6 {
+				ref := Pick(r, b.refs)
+				if len(qs)%2 == 0 { // every other call hits a listed scope
+					ref = b.refs[r.Intn(len(b.refs)/3+1)]
+				}
+				if ref == last && r.Chance(3, 4) {
+					continue
+				}
+				last = ref
+				qs = append(qs, queryD{"oci", ref})
+				scripts = append(scripts, pickScriptH(r, false))
+			}
+			runHistory("history-oci", false, d, r.Chance(1, 3), qs, scripts, true)
+		}
+		for k := 0; k < nh/2; k++ {
+			r := rng.Fork(uint64(52000 + k))
+			d0, bqs, _ := mkBlobDoc(r, 2+k%3, k%2, false)
+			ps := permutations(len(d0))
+			d := permute(d0, ps[r.Intn(len(ps))])
+			var qs []queryD
+			var scripts [][]wrD
+			for len(qs) < 6 {
+				qs = append(qs, Pick(r, bqs))
+				scripts = append(scripts, pickScriptH(r, true))
+			}
+			runHistory("history-blob", true, d, r.Chance(1, 3), qs, scripts, true)
 		}
 	}
 	_ = sort.Strings
